@@ -56,6 +56,12 @@ func FeedLog(ctx context.Context, l config.Log, w feeder.Witness, c *http.Client
 		if from.Size == 0 {
 			return [][]byte{}, nil
 		}
+		// tlog's tree arithmetic does not terminate for sizes of 2^62 and above
+		// (int64 overflow while searching for a power of two); such a size can
+		// only come from a broken or hostile log.
+		if to.Size >= 1<<62 {
+			return nil, fmt.Errorf("checkpoint size %d is too large", to.Size)
+		}
 		var h [32]byte
 		copy(h[:], to.Hash)
 		tree := tlog.Tree{
